@@ -211,6 +211,19 @@ func (c *_cache) doSync(list []metav1.Object) []Event {
 	var events []Event
 	set := make(map[cacheKey]cacheEntry)
 
+	// a list may name an object more than once: only its newest version counts
+	newest := make(map[cacheKey]int)
+	for _, obj := range list {
+		key, kerr := c.createKey(obj)
+		entry, eerr := c.createEntry(obj)
+		if kerr != nil || eerr != nil {
+			continue
+		}
+		if version, ok := newest[key]; !ok || version < entry.version {
+			newest[key] = entry.version
+		}
+	}
+
 	for _, obj := range list {
 
 		key, err := c.createKey(obj)
@@ -222,6 +235,11 @@ func (c *_cache) doSync(list []metav1.Object) []Event {
 		entry, err := c.createEntry(obj)
 		if err != nil {
 			c.log.ErrWarn(err, "createEntry(%T)", obj)
+			continue
+		}
+
+		if entry.version < newest[key] {
+			// superseded by another entry of the same list
 			continue
 		}
 
